@@ -111,9 +111,10 @@ CLAIMS = {
               "utctn/dttn/dtfromtn families at multiples of 1e9 ± 1, range ends, i128 extremes, negative totals around transitions.",
               "Lean 4 proof + source translated to Lean and proved equal to the model + differential correspondence"),
     "C17": _c("Proved for ANY buffer and ANY pushed sequence: final buffer = first min(n,k) results then the untouched tail, count = k, exhaustive iff "
-              "n ≥ k, accessors agree when exhaustive, both entry points run the same search. " + _S + _K +
+              "n ≥ k, accessors agree when exhaustive, both entry points run the same search; push_all_src / accessors_agree_src state this about the "
+              "translated push / data / count / is_exhaustive / unique / earliest / latest of both containers. " + _S + _K +
               "findn family: every n in 0..k+2 with stale-filled buffers; oracle compares find_n with find on the implementation itself.",
-              "Lean 4 proof (induction over the pushed sequence) + search translated to Lean and proved equal to the model + differential correspondence"),
+              "Lean 4 proof (induction over the pushed sequence) + search and both result containers translated to Lean and proved equal to the model + differential correspondence"),
     "C18": _c("Proved: an independent strict reader recovers exactly year, fields, nanoseconds and offset from the rendering for every year in i32 "
               "and offset in i32 \\ {MIN}; 'Z' iff offset 0; fixed widths. core::fmt padding is modelled (tied by the fmt family). " + _S + _K,
               "Lean 4 proof (round trip through an independent reader) + formatter source translated to Lean and proved equal to the model + differential correspondence"),
